@@ -59,34 +59,23 @@ Theorem C04_files_function_of_set : forall sp enc ienc, cbits sp < 2 ^ 64 ->
 Proof. exact order_independent. Qed.
 Print Assumptions C04_files_function_of_set.
 
-(* slot_refuted: the faithful model does NOT satisfy the property outside the
-   guard.  3x4x2 grid (sizes 24x32x16, chunk 8), minishard_bits 2, shard_bits
-   2, preshift 0, all 24 chunks stored without any exception: the guard is
-   false, chunk 10 (shard 2, minishard 2) was stored with payload 09 09 09, the
-   specification reader reports it absent, the package's own reader returns
-   it, and the layout predicate "index at its minishard's slot" fails for
-   files 2.shard and 3.shard. *)
-Theorem C04_slot_refuted :
+(* The dataset that refuted the property before /repo commit 49f2991 (3x4x2
+   grid, sizes 24x32x16, chunk 8, minishard_bits 2, shard_bits 2, preshift 0,
+   all 24 chunks; shards 2 and 3 use minishards {0,2}) now reads correctly:
+   chunk 10 is found at slot 2 by the specification reader, all files are WF,
+   both readers return all 24 payloads.  The former guard is false here. *)
+Example C04_old_witness_reads :
   used_minishards_prefix 2 2 0 wit_ids = false /\
   all_ok (fst wit_session) = true /\
   length wit_ids = 24%nat /\
   wit_payload 10 = Some [9; 9; 9] /\
-  spec_fetch 2 2 0 raw_sdec raw_sdec wit_files 10 = SAbsent /\
-  scale_fetch wit_sp raw_dec raw_dec (dir_of 2 wit_files) 10 = Ok [9; 9; 9] /\
-  shard_prefix_ok 2 2 0 wit_ids (spec_shard 0 2 2 10) = false /\
-  map (fun nf => wf_slot (wf_file 2 2 0 raw_sdec (fst nf) (snd nf))) wit_files
-    = [true; true; false; false].
-Proof. exact slot_refuted_wit. Qed.
-Print Assumptions C04_slot_refuted.
-
-(* inside the same dataset the defect is confined to the shards whose used
-   minishards are not an initial segment *)
-Theorem C04_slot_region_exact_on_witness :
-  forallb (fun id => negb (shard_prefix_ok 2 2 0 wit_ids (spec_shard 0 2 2 id)) ||
-                     spec_result_eqb (spec_fetch 2 2 0 raw_sdec raw_sdec wit_files id) (wit_payload id))
+  spec_fetch 2 2 0 raw_sdec raw_sdec wit_files 10 = SFound [9; 9; 9] /\
+  forallb (fun nf => wf_all (wf_file 2 2 0 raw_sdec (fst nf) (snd nf))) wit_files = true /\
+  forallb (fun id => spec_result_eqb (spec_fetch 2 2 0 raw_sdec raw_sdec wit_files id) (wit_payload id))
+          wit_ids = true /\
+  forallb (fun id => outcome_eqb (scale_fetch wit_sp raw_dec raw_dec (dir_of 2 wit_files) id) (wit_payload id))
           wit_ids = true.
-Proof. exact (proj1 wit_other_chunks). Qed.
-Print Assumptions C04_slot_region_exact_on_witness.
+Proof. exact old_witness_reads. Qed.
 
 (* spec_reads_canonical_on_guard / canonical_wf — instance evaluated in the
    kernel: 2x3x2 grid, m = s = p = 1, stored in reverse order; the guard holds,
